@@ -88,6 +88,34 @@ def check_init(chk, key):
             raise AnalysisBroken('%s: no store to %s in %s' % (key, ptr, fn))
 
 
+# context-field invariants used as facts by the abstract interpreter (DESIGN 3.4): field -> (lo, hi, justification)
+FIELD_RANGES = {
+    'eng.suites_num': (0, 48, 'only br_ssl_engine_set_suites writes it, after checking suites_num*2 <= sizeof suites_buf (checked below)'),
+    'eng.session.session_id_len': (0, 32, 'T0 code stores it only after comparing with 32; the application/cache supplied session parameters are trusted API input'),
+}
+
+
+def suites_num_guard(chk):
+    from .. import oblig, fold, wmw
+    from ..oblig import Ob, Var, E
+    u = build.load_unit('src/ssl/ssl_engine.c')
+    L = irf.Layouts(u)
+    off = L.field('br_ssl_engine_context', 'suites_num')[0]
+    cap = L.field('br_ssl_engine_context', 'suites_buf')[1] // 2
+    oblig.run_obligations(chk, [
+        Ob('src/ssl/ssl_engine.c', 'br_ssl_engine_set_suites', Var('suites_num', 'param'), ('assume', 'ugt', cap),
+           E(fold.expect_no_store_to, 'suites_num is not stored', 0, off), ('assume', 'eq', 4),
+           'more suites than suites_buf holds must be refused', rule='field-invariant',
+           extra_hyps=[(Var('suites_num', 'param'), ('assume', 'ult', 1 << 32))]),
+    ])
+    ws = set(F.name for F, i, st in wmw.stores_to_field([(s_, off) for s_ in ('br_ssl_engine_context', 'br_ssl_client_context', 'br_ssl_server_context')], 1))
+    if ws <= {'br_ssl_engine_set_suites'} and ws:
+        chk.ok('field-invariant', 'suites_num is written only by br_ssl_engine_set_suites', 'src/ssl/ssl_engine.c')
+    else:
+        chk.violation('field-invariant', 'suites_num is written only by br_ssl_engine_set_suites', 'src/ssl/ssl_engine.c', 'writers: %s' % sorted(ws),
+                      key='field-invariant suites_num writers')
+
+
 def run(tier):
     chk = report.Check('C05', tier,
                        'Static bounds for the T0 virtual machines that parse all untrusted input (X.509, keys, PEM, both handshakes): '
@@ -104,6 +132,11 @@ def run(tier):
     for key in t0.INTERPRETERS:
         check_depth(chk, key)
         check_init(chk, key)
+    import json as _json, os as _os
+    from .. import t0access
+    assumed = _json.load(open(_os.path.join(build.VERIF, 'rules', 't0_assumed_sites.json')))
+    t0access.check_all(chk, list(t0.INTERPRETERS), FIELD_RANGES, assumed)
+    suites_num_guard(chk)
     from . import c02
     c02.length_gates(chk)
     chk.floor('interpreters', len(t0.INTERPRETERS), 7)
